@@ -126,7 +126,7 @@ def run(ctx, keep, rule):
         rep = ctx.vh(["replay", "modfile", r.outfile])
         rep["violations"] = [v for v in rep.get("violations", []) if v.get("sig", "").startswith(keep)]
         ctx.add_report(rep, floor=floor, engine=cfg + ":replay")
-    if keep == "c08:":
+    if keep in ("c08:", "c15:"):
         # arbitrary string arguments: the quoting rule (specification ModfileQuote) through AddUse / AddReplace + Format + strict parse
         r = ctx.tlc("ModfileQuoteGen", "ModfileQuoteGen_3" if q else "ModfileQuoteGen_4", name="ModfileQuoteGen", workers=16, timeout=3400)
         rep = ctx.vh(["replay", "modsyntax", r.outfile])
